@@ -17,4 +17,8 @@ for r in d["results"]:
         desc = first[:120]
     name = r["mutant"]
     tests = "pass (confirmed)" if name.startswith("seeded/") else status.get(name, "?").replace("tests-", "")[:28]
-    print("| `%s` | %s | %s | %s | %s |" % (name, r["property"], tests, "**caught**" if r["caught"] else "MISSED", desc))
+    verdict = "**caught**" + (" (thorough)" if r.get("tier") == "thorough" else "") if r["caught"] else \
+        ("not caught: not a violation as worded" if r.get("equivalent") else "MISSED")
+    if not r["caught"] and r.get("equivalent"):
+        desc = r["equivalent"][:160]
+    print("| `%s` | %s | %s | %s | %s |" % (name, r["property"], tests, verdict, desc))
